@@ -239,6 +239,34 @@ func vH_C05_conc() {
 			}
 			sn.Close()
 		}
+		if vParam("reader2") == 1 {
+			// a second read by the same reader: a lookup with the value after
+			// whatever the first operation did to the caches
+			key2 := keys[vChoose("read2-key", 0, nkeys-1)]
+			ts2 := x.tick()
+			got2, err2 := ca.Get(key2)
+			te2 := x.tick()
+			vAssert("get2-noerr", err2 == nil)
+			first := verdict
+			verdict = func() {
+				if first != nil {
+					first()
+				}
+				ok := false
+				for k := range x.vers {
+					if !x.acceptable(k, ts2, te2) {
+						continue
+					}
+					j := x.vers[k].a.find(key2)
+					if j < 0 {
+						ok = vOr(ok, got2 == nil)
+					} else {
+						ok = vOr(ok, vAnd(got2 != nil, vBytesEq(got2, x.vers[k].a.ents[j].val)))
+					}
+				}
+				vAssert("second-get-sees-one-current-version", ok)
+			}
+		}
 		readDone = true
 	}()
 	vBlockUntil(&mutDone)
